@@ -17,7 +17,7 @@ RULE = ("tree pairs (C01's generators, biased to containers of different sizes s
 ASSUMPTIONS = ["cost(e) = e.bounds() once e.tighten_bounds() returns False (must be a single value)",
                "whether the cost is minimal is not judged"]
 MINIMUMS = {"quick": {"views_compared": 8000, "levels_summed": 15000},
-            "thorough": {"views_compared": 200000, "levels_summed": 600000}}
+            "thorough": {"views_compared": 100000, "levels_summed": 300000}}
 
 
 def plan(tier, seed):
